@@ -814,7 +814,7 @@ type errRec struct {
 var lineRe = regexp.MustCompile(`line (\d+)`)
 var gotRe = regexp.MustCompile(`got '(.)'`)
 
-type errStats struct{ judged, withLine, noError, hookUsed int64 }
+type errStats struct{ judged, withLine, noError, hookUsed, beyond int64 }
 
 var hookRemaining, hookLine, hookCalls int
 
@@ -884,10 +884,23 @@ func errlineOne(r *errRec, i int, seed int64, tmpdir string) (string, error, err
 		} else if len(r.Lines) > 0 {
 			hi = r.Lines[len(r.Lines)-1]
 		}
-		if cited < lo || cited > hi {
+		// where the machine actually was when it returned (exact, through the hook)
+		detected := -1
+		if hookCalls > 0 {
+			if off := len(text) - hookRemaining; off >= 0 && off < len(text) {
+				detected = off
+			}
+		}
+		// The parser is more lenient than RFC 8259 in places (e.g. it skips a stray character after a string value): then
+		// it reads past the injected token and reports whatever it meets later. The window rules below speak about an error
+		// detected AT the injected token; an error detected beyond its terminating delimiter is judged by the exact rule only.
+		beyond := detected > endOff
+		if !beyond && (cited < lo || cited > hi) {
 			return text, fmt.Errorf("%s: error %q cites line %d; the error position is on line %d (bad token) .. %d (terminating delimiter) of %q", entry, perr, cited, lo, hi, text), es
 		}
-		if g := gotRe.FindStringSubmatch(perr.Error()); g != nil {
+		if beyond {
+			es.beyond++
+		} else if g := gotRe.FindStringSubmatch(perr.Error()); g != nil {
 			// the message names the unexpected character: its first occurrence at/after the bad token
 			if idx := strings.Index(text[badOff:], g[1]); idx >= 0 && badOff+idx <= endOff {
 				if want := lineAt(badOff + idx); cited != want {
@@ -900,10 +913,10 @@ func errlineOne(r *errRec, i int, seed int64, tmpdir string) (string, error, err
 			}
 		}
 		// exact oracle through the hook: the character the machine was looking at when it returned
-		if entry == "direct" && hookCalls > 0 {
+		if detected >= 0 {
 			es.hookUsed++
-			off := len(text) - hookRemaining
-			if off >= 0 && off < len(text) {
+			off := detected
+			{
 				want := lineAt(off)
 				if text[off] == '\n' {
 					want++ // the machine counts a newline before it handles it
@@ -1057,6 +1070,7 @@ func cmdErrLine(args []string) int {
 		tot.withLine += es.withLine
 		tot.noError += es.noError
 		tot.hookUsed += es.hookUsed
+		tot.beyond += es.beyond
 		st.evals += es.judged
 		st.seen(text)
 		if i%997 == 0 {
@@ -1096,7 +1110,7 @@ func cmdErrLine(args []string) int {
 		}
 	}
 	return finishDocs(*prop, st, *out, *replayDir, map[string]any{"tlc_records": len(recs), "fixed_far_down_texts_judged": fixed, "judged_calls": tot.judged, "errors_with_line": tot.withLine,
-		"accepted_without_error": tot.noError, "hook_exact_checks": tot.hookUsed, "wall_s": time.Since(start).Seconds()})
+		"accepted_without_error": tot.noError, "hook_exact_checks": tot.hookUsed, "errors_detected_beyond_the_injected_token": tot.beyond, "wall_s": time.Since(start).Seconds()})
 }
 
 func init() {
